@@ -60,18 +60,20 @@ A_PAGEMUT = 'in-memory page construction (prelude/pagemut.rs): the header record
 
 PROPS['C02'] = dict(
     level='proof',
-    composition='paper (DESIGN section 5, L1) from the machine-checked clauses (w1)-(w3) of write_data, M3 and lemma_newest_wins / lemma_fallback_to_intact_slot',
-    units=['commit', 'freelist', 'meta', 'db'],
+    composition='MACHINE-CHECKED: theorem_crash_atomicity / corollary_durable_after_ok (unit crash, prelude/crash_spec.rs) from the clause predicates (w1)-(w3) of write_data (lemma_clauses_from_contract) and the recovery oracle select_header of DBInner::meta; remaining paper steps: allocated pages are disjoint from the old tree (T1/F1 + INV-live, lemma L2), H1 for a torn header',
+    units=['commit', 'freelist', 'meta', 'db', 'crash'],
     kani_quick=['layout'],
     explanation='Crash atomicity: TxInner::write_data is verified on its real body against a file stand-in whose every operation may fail: '
                 '(w1) every data write targets a page allocated in this transaction (T1/F1: from the free set or fresh, never a live page), '
                 '(w2) one header write, to the other slot, carrying exactly the transaction meta with a fresh checksum, and it is the last write, '
                 '(w3) ORDER data-writes* . Sync . header . Sync on Ok, every allocated page written; M1/M3 give recovery = newest valid header. '
-                'Lemma L1 (any crash prefix / any subset since the last sync shows old or new state) is the paper composition of these clauses.',
+                'Lemma L1 is PROVED in unit crash over exactly these clause predicates: the file is a byte sequence, a process kill leaves a prefix of the commit\'s writes applied, a power loss leaves everything before the last completed sync '
+                'plus ARBITRARY bytes wherever a later write touches (this covers every subset of the unsynced writes and tearing at any granularity); for every crash point recovery (select_header) reads either the old header and every byte the commit does not write is as before, '
+                'or the new header and every data write of the commit is completely on the disk; after Ok only the latter. Dropping (w3) from the hypotheses makes the proof fail (that was defect E1).',
     level_text='Every path of the real commit code (including all error exits) is proved against the trace contract; no bound on pages, sizes or history.',
-    level_note='Assumes the file/trace stand-in semantics, the tree layer frame A1/A2/INV-live, FNV (H0/H1). L1 composition on paper. Known finding E2 listed.',
+    level_note='Assumes the file/trace stand-in semantics, the tree layer frame A1/A2/INV-live, FNV (H0/H1: a half-written header slot is valid only if complete or unchanged), view locality (page views are functions of the page\'s bytes). L1 starts from a state whose newest header is a current-format header (the first commit on a legacy-format file is outside it). Known finding E2 listed.',
     assumptions=[A_TOOLS, A_ARITH, A_FILE, A_TREE, A_FNV, A_VIEWS, A_SEQ, A_PAGEMUT],
-    not_covered=['rebalance/spill/merge of the tree layer', 'torn-write granularity is argued on paper (L1) from (w2)/(M1-sens)'],
+    not_covered=['rebalance/spill/merge of the tree layer', 'that the pages a commit allocates are disjoint from the old tree is L2 (unit lemmas) + T1/F1, joined to L1 on paper', 'the first commit on a legacy-format (<= 0.10) file'],
 )
 PROPS['C11'] = dict(
     level='proof',
